@@ -1,5 +1,6 @@
 """C10 -- fast modal sums equal explicit sums; least-squares fit inverts synthesis."""
 import ast
+import re
 
 from ..core.db import AnalysisError, norm_stmt, walk_no_nested
 from ..core.interp import Const, Tup, Unknown, Frame, _Return
@@ -87,7 +88,8 @@ def clenshaw_rules(run, db):
             raise AnalysisError('%s: expected one store in the recurrence step' % qual)
         g_tgt, g_idx, g_val, g_node, _ = stores[0]
         n = Rat(R.atom('n'))
-        M = dom.rat(fr.env[Mname])
+        from .common import degree_local
+        M = dom.rat(fr.env[degree_local(f)])
         run.check(g_idx is not None and g_idx == n, 'C10.clenshaw', f.qual, 'step index', 'the step stores alphas[n]', 'the recurrence step stores index %s' % (g_idx.key() if g_idx is not None else '?'), f.loc(g_node))
 
         def A(k):
@@ -240,7 +242,8 @@ def basis_rules(run, db):
         want = want_fn(R, c, b, n, extra)
         run.check(s_idx is not None and s_idx == n and s_val is not None and s_val == want, 'C10.basis', f.qual, 'step', text,
                   '%s: the sweep stores index %s = %s, expected %s' % (f.name, s_idx.key() if s_idx is not None else '?', s_val.key() if s_val is not None else '?', want.key()), f.loc(s_node))
-        M = dom.rat(fr.env[Mname])
+        from .common import degree_local
+        M = dom.rat(fr.env[degree_local(f)])
         known = {}
         npre = 0
         for t_, idx, val, nd, conds in pre:
@@ -350,8 +353,26 @@ def assembly_rules(run, db):
     resid = (A2 + B2 * x) * P[(1, 2)] - C2 * P[(1, 1)] - P[(1, 3)]
     fz = db.func(Q + 'compute_z_zprime_Q2d')
     # the correction applied to the Clenshaw sum: S = P_0 alpha_0 - (residual) alpha_3 for m == 1 and at least four coefficients
-    corr = [n for n in walk_no_nested(fz.node) if isinstance(n, ast.AugAssign) and isinstance(n.op, ast.Sub) and 'alphas_' in ast.unparse(n.value) and '[3]' in ast.unparse(n.value)]
-    base = [n for n in walk_no_nested(fz.node) if isinstance(n, ast.Assign) and 'alphas_' in ast.unparse(n.value) and ast.unparse(n.value).endswith('[0]')]
+    # the Clenshaw tables are the locals bound to clenshaw_q2d_der(<coefficients>, m, x), whatever they are called
+    from ..core.pattern import find
+    tabs = {}
+    for b_, n_ in find(fz.node, 'V_A = clenshaw_q2d_der(V_c, V_m, E_x)'):
+        tabs[b_['V_A']] = (b_['V_c'], b_['V_m'])
+
+    def _root_idx(e):
+        """(root name, last constant index) of a subscript chain A[i][k]."""
+        if not (isinstance(e, ast.Subscript) and isinstance(e.slice, ast.Constant)):
+            return None
+        r_ = e.value
+        while isinstance(r_, ast.Subscript):
+            r_ = r_.value
+        return (r_.id, e.slice.value) if isinstance(r_, ast.Name) else None
+
+    def _reads(n_, k):
+        return [x_ for x_ in ast.walk(n_.value) if _root_idx(x_) is not None and _root_idx(x_)[0] in tabs and _root_idx(x_)[1] == k and isinstance(x_.value, ast.Subscript)]
+    corr = [n for n in walk_no_nested(fz.node) if isinstance(n, ast.AugAssign) and isinstance(n.op, ast.Sub) and _reads(n, 3)]
+    base = [n for n in walk_no_nested(fz.node) if isinstance(n, ast.Assign) and isinstance(n.value, ast.BinOp) and _root_idx(n.value.right) is not None
+            and _root_idx(n.value.right)[0] in tabs and _root_idx(n.value.right)[1] == 0]
     okc = resid.num.is_const() and resid.den.is_const() and len(corr) == 4 and len(base) == 4
     vals = set()
     for n in corr:
@@ -369,8 +390,21 @@ def assembly_rules(run, db):
     run.check(okc and vals == {resid} and bvals == {P[(1, 0)]}, 'C10.assembly', fz.qual, 'm = 1 correction',
               'S = P_0 alpha_0 - rho alpha_3 with rho = (A_2 + B_2 x) P_2^1 - C_2 P_1^1 - P_3^1 = %s (the published P_3^1 is off the effective recurrence by a constant), same for the derivative row' % resid.key(),
               'compute_z_zprime_Q2d uses S = %s alpha_0 - %s alpha_3; the effective recurrence leaves the residual %s against the published P_3^1 and P_0 = 1/2' % (sorted(b_.key() for b_ in bvals), sorted(v_.key() for v_ in vals), resid.key()), fz.loc())
-    guards = {ast.unparse(n.test).replace(' ', '') for n in walk_no_nested(fz.node) if isinstance(n, ast.If) and any(c_ in n.body for c_ in corr)}
-    run.check(guards == {'m==1andNa>2', 'm==1andNb>2'}, 'C10.assembly', fz.qual, 'm = 1 guard', 'the correction is applied exactly when m == 1 and the family has an alpha_3 (more than three coefficients)',
+    # each correction is guarded by (azimuthal counter == 1) and (its own family has more than three coefficients)
+    degs = {b_['V_N']: b_['V_c'] for b_, _ in find(fz.node, 'V_N = len(V_c) - 1')}
+    guards = set()
+    for n in walk_no_nested(fz.node):
+        if not (isinstance(n, ast.If) and any(c_ in n.body for c_ in corr)):
+            continue
+        fam = {tabs[_root_idx(x_)[0]] for c_ in n.body if c_ in corr for x_ in _reads(c_, 3)}
+        form = None
+        for pat, kind in (('V_m == 1 and V_N > 2', 'deg'), ('V_m == 1 and V_N >= 3', 'deg'), ('V_m == 1 and len(V_c) > 3', 'len'), ('V_m == 1 and len(V_c) >= 4', 'len')):
+            hit = [b_ for b_, t_ in find(n.test, pat) if t_ is n.test]
+            if hit:
+                coef = degs.get(hit[0]['V_N']) if kind == 'deg' else hit[0]['V_c']
+                form = (coef, hit[0]['V_m'])
+        guards.add('m==1 and len(coefficients)>3' if form is not None and fam == {form} else ast.unparse(n.test).replace(' ', ''))
+    run.check(guards == {'m==1 and len(coefficients)>3'} and len(corr) == 4, 'C10.assembly', fz.qual, 'm = 1 guard', 'the correction is applied exactly when m == 1 and the family has an alpha_3 (more than three coefficients)',
               'the m = 1 correction is guarded by %s' % sorted(guards), fz.loc())
 
 
@@ -460,19 +494,26 @@ def len1_rules(run, db):
                                                                                  'an entry that does not exist is read' if what.startswith('read') else 'a negative order/index is formed (division by zero in the recurrence coefficients / wrap-around indexing)'), f.loc(node))
 
 
+def _family_loop(f):
+    """The loop of compute_z_zprime_Q2d over the two coefficient families, and the names of its two loop variables
+    (cosine family first): `for <a>, <b> in zip(ams, bms)`."""
+    loops = [n for n in walk_no_nested(f.node) if isinstance(n, ast.For) and isinstance(n.iter, ast.Call) and ast.unparse(n.iter.func) == 'zip'
+             and [ast.unparse(a_) for a_ in n.iter.args] == ['ams', 'bms'] and isinstance(n.target, ast.Tuple) and len(n.target.elts) == 2
+             and all(isinstance(e, ast.Name) for e in n.target.elts)]
+    if len(loops) != 1:
+        raise AnalysisError('compute_z_zprime_Q2d: loop `for <a>, <b> in zip(ams, bms)` not found')
+    return loops[0], loops[0].target.elts[0].id, loops[0].target.elts[1].id
+
+
 def sym_rules(run, db):
     f = db.func(Q + 'compute_z_zprime_Q2d')
-    loops = [n for n in walk_no_nested(f.node) if isinstance(n, ast.For) and 'a_coef' in ast.unparse(n.target)]
-    if len(loops) != 1:
-        raise AnalysisError('compute_z_zprime_Q2d: loop over (a_coef, b_coef) not found')
-    lp = loops[0]
-    swap = {'a_coef': 'b_coef', 'b_coef': 'a_coef'}
+    lp, FA, FB = _family_loop(f)
 
     def ren(txt):
-        return txt.replace('a_coef', '\0').replace('b_coef', 'a_coef').replace('\0', 'b_coef')
+        return re.sub(r'\b(%s|%s)\b' % (re.escape(FA), re.escape(FB)), lambda m_: FB if m_.group(1) == FA else FA, txt)
     guards = []
     for n in ast.walk(lp):
-        if isinstance(n, ast.If) and ('a_coef' in ast.unparse(n.test) or 'b_coef' in ast.unparse(n.test)):
+        if isinstance(n, ast.If) and {x_.id for x_ in ast.walk(n.test) if isinstance(x_, ast.Name)} & {FA, FB}:
             kind = 'continue' if any(isinstance(x, ast.Continue) for x in n.body) else 'block'
             guards.append((ast.unparse(n.test), kind, n))
     def canon(node):
@@ -519,20 +560,17 @@ def mirror_rules(run, db):
     """compute_z_zprime_Q2d: the cosine block and the sine block are mirror images under one renaming of family-local names,
     and every name they share does not depend on either family."""
     f = db.func(Q + 'compute_z_zprime_Q2d')
-    loops = [n for n in walk_no_nested(f.node) if isinstance(n, ast.For) and 'a_coef' in ast.unparse(n.target)]
-    if len(loops) != 1:
-        raise AnalysisError('compute_z_zprime_Q2d: loop over (a_coef, b_coef) not found')
-    lp = loops[0]
+    lp, FA, FB = _family_loop(f)
     blocks = {}
     for st in lp.body:
         if isinstance(st, ast.If) and not st.orelse:
             t = ast.unparse(st.test).replace(' ', '')
-            for fam in ('a_coef', 'b_coef'):
+            for fam in (FA, FB):
                 if t in ('len(%s)>0' % fam, 'len(%s)!=0' % fam, 'len(%s)>=1' % fam):
                     blocks[fam] = st
-    if set(blocks) != {'a_coef', 'b_coef'}:
+    if set(blocks) != {FA, FB}:
         raise AnalysisError('compute_z_zprime_Q2d: the two family blocks `if len(x_coef) > 0:` were not found')
-    A, B = blocks['a_coef'], blocks['b_coef']
+    A, B = blocks[FA], blocks[FB]
     mapping = {}
     mismatch = []
 
@@ -572,11 +610,11 @@ def mirror_rules(run, db):
     if len(A.body) != len(B.body):
         mismatch.append((A, B))
     first = mismatch[0] if mismatch else None
-    run.check(not mismatch, 'C10.sym', f.qual, 'mirror blocks', 'the sine block is the cosine block under one consistent renaming (%s)' % ', '.join('%s->%s' % kv for kv in sorted(mapping.items()) if kv[0] != kv[1]),
+    run.check(not mismatch, 'C10.sym', f.qual, 'mirror blocks', 'the sine block is the cosine block under one consistent renaming of the family-local names',
               'the cosine and sine blocks are not mirror images: `%s` vs `%s`' % ((norm_stmt(first[0]) if isinstance(first[0], ast.stmt) else ast.unparse(first[0])) if first else '',
                                                                                  (norm_stmt(first[1]) if isinstance(first[1], ast.stmt) else ast.unparse(first[1])) if first else ''), f.loc(first[1]) if first else f.loc())
     inj = len(set(mapping.values())) == len(mapping)
-    run.check(inj and mapping.get('a_coef') == 'b_coef', 'C10.sym', f.qual, 'renaming', 'the renaming is one-to-one and maps a_coef to b_coef', 'two cosine-side names map to one sine-side name: %s' % mapping, f.loc(B))
+    run.check(inj and mapping.get(FA) == FB, 'C10.sym', f.qual, 'renaming', 'the renaming is one-to-one and maps a_coef to b_coef', 'two cosine-side names map to one sine-side name: %s' % mapping, f.loc(B))
     # shared names (mapped to themselves) must not depend on either family
     defs = {}
     for n in ast.walk(lp):
@@ -590,7 +628,7 @@ def mirror_rules(run, db):
 
     def depends(nm, seen=None):
         seen = seen or set()
-        if nm in ('a_coef', 'b_coef'):
+        if nm in (FA, FB):
             return nm
         if nm in seen:
             return None
@@ -604,25 +642,28 @@ def mirror_rules(run, db):
         fam = depends(nm)
         run.check(fam is None, 'C10.sym', f.qual, 'shared name %s' % nm, '`%s` is used by both family blocks and depends on neither coefficient list' % nm,
                   '`%s` is used in BOTH family blocks but is computed from %s: the %s block is steered by the length/content of the other family '
-                  '(e.g. the m = 1 correction of the sine sum is applied according to the number of cosine coefficients)' % (nm, fam, 'sine' if fam == 'a_coef' else 'cosine'), f.loc(B))
+                  '(e.g. the m = 1 correction of the sine sum is applied according to the number of cosine coefficients)' % (nm, fam, 'sine' if fam == FA else 'cosine'), f.loc(B))
 
 
 def counter_rules(run, db):
     """compute_z_zprime_Q2d walks (a_m, b_m) for m = 1, 2, ...: the order counter advances on EVERY pass, skipped orders included."""
     from .common import every_pass_executes, loop_carried
     f = db.func(Q + 'compute_z_zprime_Q2d')
-    loops = [n for n in walk_no_nested(f.node) if isinstance(n, ast.For) and 'a_coef' in ast.unparse(n.target)]
-    if len(loops) != 1:
-        raise AnalysisError('compute_z_zprime_Q2d: loop over (a_coef, b_coef) not found')
-    lp = loops[0]
+    lp, FA, FB = _family_loop(f)
     run.check(ast.unparse(lp.iter).replace(' ', '') == 'zip(ams,bms)', 'C10.sym', f.qual, 'walk', 'cosine and sine coefficient lists are walked together, order by order', 'the families are no longer zipped', f.loc(lp))
-    is_inc = lambda st: isinstance(st, ast.AugAssign) and isinstance(st.op, ast.Add) and ast.unparse(st.target) == 'm' and ast.unparse(st.value) == '1'
+    # the azimuthal order counter is the local handed to the Clenshaw sums as their order, whatever it is called
+    from ..core.pattern import find
+    ctrs = {b_['V_m'] for b_, _ in find(lp, 'clenshaw_q2d_der(V_c, V_m, E_x)')}
+    if len(ctrs) != 1:
+        raise AnalysisError('compute_z_zprime_Q2d: the order handed to clenshaw_q2d_der is not one local name (%s)' % sorted(ctrs))
+    MC = sorted(ctrs)[0]
+    is_inc = lambda st: isinstance(st, ast.AugAssign) and isinstance(st.op, ast.Add) and ast.unparse(st.target) == MC and ast.unparse(st.value) == '1'
     incs = [st for st in ast.walk(lp) if is_inc(st)]
     ok, passed = every_pass_executes(lp.body, is_inc)
-    pre = [st for st in f.node.body if isinstance(st, ast.Assign) and ast.unparse(st.targets[0]) == 'm']
+    pre = [st for st in f.node.body if isinstance(st, ast.Assign) and ast.unparse(st.targets[0]) == MC]
     okinit = len(pre) == 1 and ast.unparse(pre[0].value) == '0' and lp.body and is_inc(lp.body[0])
     uses_before = False
-    run.check(len(incs) == 1 and ok and passed and 'm' in loop_carried(lp), 'C10.sym', f.qual, 'order counter', 'm advances exactly once on every pass (also on passes skipped because both families are empty)',
+    run.check(len(incs) == 1 and ok and passed and MC in loop_carried(lp), 'C10.sym', f.qual, 'order counter', 'm advances exactly once on every pass (also on passes skipped because both families are empty)',
               'the azimuthal order counter m is not advanced on every pass through the loop (a `continue` is reached before `m += 1`): an order absent from both families no longer advances m, '
               'so every later order is evaluated with too small an m', f.loc(incs[0]) if incs else f.loc(lp))
     # whatever else flows from one azimuthal order to the next is an accumulator (only ever `+=`-ed): a per-order partial sum
@@ -634,7 +675,7 @@ def counter_rules(run, db):
                   (isinstance(n_, ast.Assign) and any(isinstance(x_, ast.Name) and x_.id == nm and isinstance(x_.ctx, ast.Store) for t_ in n_.targets for x_ in ast.walk(t_)))]
         if not all(isinstance(n_, ast.AugAssign) and isinstance(n_.op, ast.Add) for n_ in stores):
             stale.append(nm)
-    run.check(not stale, 'C10.sym', f.qual, 'per-order state', 'only the order counter and the running totals (z, dr, dt) flow from one azimuthal order to the next (carried: %s)' % sorted(carried),
+    run.check(not stale, 'C10.sym', f.qual, 'per-order state', 'only the order counter and the running totals (z, dr, dt) flow from one azimuthal order to the next',
               'the per-order values %s may keep their value from an EARLIER azimuthal order (read before they are assigned on some path through the loop body): when a family is absent at '
               'some order after being present at a lower one, the lower order\'s partial sum is re-used with u^m cos/sin(m t) of the new order' % stale, f.loc(lp))
     run.check(okinit, 'C10.sym', f.qual, 'order counter start', 'm starts at 0 and is advanced before it is used, so entry k of the lists is evaluated with m = k + 1',
@@ -644,10 +685,17 @@ def counter_rules(run, db):
 def pack_rules(run, db):
     f = db.func(Q + 'Q2d_nm_c_to_a_b')
     # the output lists cover m = 1 .. max KEY of both dictionaries
+    # roles from the interface: the second and third returned lists are filled, per azimuthal order, from the cosine / sine dictionaries
+    from ..core.pattern import match_all, find
+    rb = match_all(f.node, ['return V_c, V_a, V_b'])
+    if rb is None:
+        raise AnalysisError('Q2d_nm_c_to_a_b: does not return (cms, a lists, b lists)')
     rng = [n for n in walk_no_nested(f.node) if isinstance(n, ast.For) and isinstance(n.iter, ast.Call) and ast.unparse(n.iter.func) == 'range'
-           and any('ac_ret.append' in ast.unparse(st) for st in n.body)]
+           and isinstance(n.target, ast.Name) and find(n, '%s.append(V_d[%s])' % (rb['V_a'], n.target.id)) and find(n, '%s.append(V_d[%s])' % (rb['V_b'], n.target.id))]
     if len(rng) != 1:
         raise AnalysisError('Q2d_nm_c_to_a_b: packing loop not found')
+    DA = find(rng[0], '%s.append(V_d[%s])' % (rb['V_a'], rng[0].target.id))[0][0]['V_d']
+    DB = find(rng[0], '%s.append(V_d[%s])' % (rb['V_b'], rng[0].target.id))[0][0]['V_d']
     hi = ast.unparse(rng[0].iter.args[-1]).replace(' ', '')
     lo = ast.unparse(rng[0].iter.args[0]).replace(' ', '') if len(rng[0].iter.args) > 1 else '0'
     bound = hi[:-2] if hi.endswith('+1') else None
@@ -657,18 +705,18 @@ def pack_rules(run, db):
     counts = []
     if okb:
         for n in ast.walk(bdefs[0].value):
-            if isinstance(n, ast.Call) and ast.unparse(n.func) == 'len' and n.args and ast.unparse(n.args[0]) in ('ac', 'bc'):
+            if isinstance(n, ast.Call) and ast.unparse(n.func) == 'len' and n.args and ast.unparse(n.args[0]) in (DA, DB):
                 counts.append(ast.unparse(n))
             if isinstance(n, ast.Starred) or (isinstance(n, ast.Call) and ast.unparse(n.func) in ('max', 'list', 'sorted', 'tuple')):
                 inner = n.value if isinstance(n, ast.Starred) else (n.args[0] if n.args else None)
                 t = ast.unparse(inner).replace(' ', '') if inner is not None else ''
-                for d in ('ac', 'bc'):
+                for d in (DA, DB):
                     if t in (d, d + '.keys()'):
                         keysrc.add(d)
         okb = isinstance(bdefs[0].value, ast.Call) and ast.unparse(bdefs[0].value.func) == 'max'
-    run.check(okb and keysrc == {'ac', 'bc'} and not counts, 'C10.pack', f.qual, 'azimuthal range', 'the packed lists run over m = 1 .. max(keys of the cosine and sine dictionaries)',
+    run.check(okb and keysrc == {DA, DB} and not counts, 'C10.pack', f.qual, 'azimuthal range', 'the packed lists run over m = 1 .. max(keys of the cosine and sine dictionaries)',
               'the packed lists run over range(%s, %s) with %s = %s: %s -- azimuthal orders above that bound are silently dropped when the requested orders are sparse' %
-              (lo, hi, bound, ast.unparse(bdefs[0].value) if bdefs else '?', ('a COUNT of dictionary entries (%s) is used as a bound on the KEYS' % ', '.join(counts)) if counts else 'the keys of %s are not consulted' % sorted({'ac', 'bc'} - keysrc)), f.loc(bdefs[0]) if bdefs else f.loc())
+              (lo, hi, bound, ast.unparse(bdefs[0].value) if bdefs else '?', ('a COUNT of dictionary entries (%s) is used as a bound on the KEYS' % ', '.join(counts)) if counts else 'the keys of %s are not consulted' % sorted({DA, DB} - keysrc)), f.loc(bdefs[0]) if bdefs else f.loc())
     calls = [n for n in walk_no_nested(f.node) if isinstance(n, ast.Call) and isinstance(n.func, ast.Name) and n.func.id in ('max', 'min')]
     if not calls:
         raise AnalysisError('Q2d_nm_c_to_a_b: no max() found')
